@@ -76,6 +76,15 @@ pub fn run(args: &[String]) -> i32 {
                     if a.validate != ty.msg_validate {
                         push(&mut violations, format!("C12|wrapper|MT{}|validate-differs-from-typed", t), &text, json!({"case": case, "wrapper": a.validate.1, "typed": ty.msg_validate.1}));
                     }
+                    // the wrapper's JSON carries the announced type as its tag and is read back as that type
+                    if a.json_tag != *t {
+                        push(&mut violations, format!("C12|wrapper-json|MT{}|tagged-as:{}", t, a.json_tag), &text, json!({"case": case}));
+                    }
+                    match &a.json_back {
+                        Ok(back) if back == t => {}
+                        Ok(back) => push(&mut violations, format!("C12|wrapper-json|MT{}|read-back-as:{}", t, back), &text, json!({"case": case})),
+                        Err(e) => push(&mut violations, format!("C12|wrapper-json|MT{}|not-read-back", t), &text, json!({"case": case, "err": e})),
+                    }
                 }
                 Err(e) => push(&mut violations, format!("C12|auto|MT{}|failed", t), &text, json!({"case": case, "err": e})),
             }
